@@ -242,7 +242,8 @@ func RefreshRoots() []EngineRoot {
 // ("live|" = the session object is kept; otherwise it is marshalled and read back before the resume;
 // env:far = the resume carries an environment in a timezone where the calendar day differs)
 // env:mid = a timezone in which the contacts' creation instant is exactly a local midnight
-var Histories = [][]string{{}, {"msg:Dog"}, {"refresh:Dog"}, {"env:far:Dog"}, {"live|env:far:Dog"}, {"env:mid:Dog"}}
+// "!expire": the environment arrives with a run_expiration resume, which brings neither message nor contact
+var Histories = [][]string{{}, {"msg:Dog"}, {"refresh:Dog"}, {"env:far:Dog"}, {"live|env:far:Dog"}, {"env:mid:Dog"}, {"env:far:!expire"}, {"live|env:far:!expire"}, {"expire"}}
 
 // SprintObs is what one engine call exposes to the contact-family oracles.
 type SprintObs struct {
